@@ -171,11 +171,6 @@ pub uninterp spec fn q_add(a: Rational, b: Rational) -> Rational;
 pub uninterp spec fn q_mul(a: Rational, b: Rational) -> Rational;
 pub uninterp spec fn q_neg(a: Rational) -> Rational;
 pub uninterp spec fn q_div(a: Rational, b: Rational) -> Rational;    // exact quotient, b != 0
-pub uninterp spec fn q_of_float(f: f64) -> Rational;                  // the exact value of a finite double
-// `Rational::try_from(f64).ok()` (dashu): exact for finite doubles, None for NaN and the infinities (ASSUMED)
-#[verifier::external_body]
-pub fn rational_try_from_f64(f: f64) -> (r: Option<Rational>)
-    ensures f_finite(f) ==> r == Some(q_of_float(f)), !f_finite(f) ==> r is None { unimplemented!() }
 pub uninterp spec fn q_abs(a: Rational) -> Rational;
 pub uninterp spec fn q_sign(a: Rational) -> int;      // -1, 0, 1
 pub uninterp spec fn q_floor(a: Rational) -> int;
